@@ -243,10 +243,12 @@ def _literal(s, i, n, lang):
             return None
         m = STR_PREFIX.match(s, i)
         if m:
-            if m.group(1):      # raw string
+            if m.group(1) and lang not in ('CPP', 'OC+'):
+                return None                                  # raw strings are C++ only: 'R' is an identifier elsewhere
+            if m.group(1):
                 q = m.end()
                 k = s.find('(', q)
-                if k < 0 or k - q > 16 or re.search(r'[\s\\)"]', s[q:k]):
+                if k < 0 or k - q > 16 or re.search(r'[\s\\)]', s[q:k]):
                     return ('str', _quoted(s, q - 1, n, '"', lang))
                 delim = ')' + s[q:k] + '"'
                 e = s.find(delim, k + 1)
